@@ -9,6 +9,8 @@ mod lang;
 mod props;
 #[allow(dead_code)]
 mod run;
+#[allow(dead_code)]
+mod xform;
 
 use engine::*;
 
